@@ -296,6 +296,41 @@ pub fn run(ctx: &mut Ctx) -> (&'static str, String, bool) {
         }
         ctx.merge(p);
     }
+    // ---- typed fields wider than their wire slot: a `char` that goes into one byte (ISI prefix, SCH key). Whatever the
+    //      character, an emitted frame is well formed and of the kind's fixed size - or the packet is refused -----------
+    {
+        let mut p = Part::new();
+        let chars = ['!', '/', '\u{7f}', '\u{80}', 'é', 'ÿ', '€', 'ш', 'λ', 'ş', 'Ā', '！', '日', '😀', char::MAX, '^', '\0'];
+        for ch in chars {
+            let packets = [
+                ("ISI", insim::Packet::Isi(insim::insim::Isi { prefix: ch, iname: "verif".into(), ..Default::default() })),
+                ("SCH", insim::Packet::Sch(insim::insim::Sch { charb: ch, ..Default::default() })),
+            ];
+            for (kind, pk) in packets {
+                for compressed in MODES {
+                    p.evaluations += 1;
+                    p.distinct(&(kind, ch, compressed));
+                    let replay = json!({"kind": kind, "mode": mode_name(compressed), "origin": "api", "char": format!("{:?}", ch)});
+                    match real_encode(&pk, compressed) {
+                        Enc::Ok(f) => {
+                            well_formed(c, kind, &f, compressed, None, "api", &replay, &mut p);
+                            let want = c.spec.packet(kind).base;
+                            if f.len() != want {
+                                p.violation(
+                                    format!("C03/{kind}/api/fixed-size-kind-has-other-size"),
+                                    format!("{kind} {} with the character {:?}: encoder returned {} bytes, the kind is {want} bytes", mode_name(compressed), ch, f.len()),
+                                    replay,
+                                );
+                            }
+                        },
+                        Enc::Err(_) => p.count("refused_with_error", 1),
+                        Enc::Panic(_) => p.count("refused_with_panic", 1),
+                    }
+                }
+            }
+        }
+        ctx.merge(p);
+    }
     // ---- the public size-byte rule itself: Mode::encode_length for every length 0..=1100 ------------------------
     {
         use insim::net::Mode;
